@@ -136,9 +136,27 @@ class Runner
     // failure plumbing
     // -----------------------------------------------------------------------------------------------------------
     bool bad() const { return !verdict.ok; }
+    static bool code_in(const std::string& code, std::initializer_list<const char*> set)
+    {
+        for (auto* c : set)
+            if (code == c) return true;
+        return false;
+    }
+    bool outside_view(const std::string& code) const
+    {
+        if (prop != 17) return false;
+        if (guards & G_VIEW_LIFETIMES)
+            return !code_in(code, {"block_freed_with_live_objects", "construct_on_live_object", "destroy_of_dead_object", "object_bytes_clobbered",
+                                   "use_of_dead_object", "object_never_destroyed", "live_object_not_held", "held_object_not_alive"});
+        if (guards & G_VIEW_LEDGER)
+            return !code_in(code, {"dealloc_unknown_pointer", "dealloc_wrong_arena", "dealloc_wrong_size", "dealloc_wrong_type", "block_never_returned"});
+        if (guards & G_VIEW_RESERVE) return prog.ops.empty() || prog.ops.back().kind != K_RESERVE;
+        return false;
+    }
     void fail(const std::string& code, const std::string& msg)
     {
         if (!verdict.ok) return;
+        if (outside_view(code)) return;
         verdict.ok = false;
         char pbuf[8];
         std::snprintf(pbuf, sizeof pbuf, "C%02d.", prop);
@@ -1612,12 +1630,12 @@ class Runner
         if (!ledger().errors.empty())
         {
             fail(ledger().errors[0].code, "after an injected allocation failure: " + ledger().errors[0].msg);
-            return;
+            if (bad()) return;
         }
         if (!registry().errors.empty())
         {
             fail(registry().errors[0].code, "after an injected allocation failure: " + registry().errors[0].msg);
-            return;
+            if (bad()) return;
         }
         // 2. untouched operands equal their models (reserve / copy construction leave the source unchanged)
         for (int s = 0; s < NSLOT && !bad(); ++s) monitor_values(s);
@@ -1643,7 +1661,7 @@ class Runner
         if (!registry().errors.empty())
         {
             fail(registry().errors[0].code, "reading an operand after an injected allocation failure: " + registry().errors[0].msg);
-            return;
+            if (bad()) return;
         }
         monitor_lifetimes();
         if (bad()) return;
@@ -1690,7 +1708,7 @@ class Runner
             if (!r.errors.empty())
             {
                 fail(r.errors[0].code, r.errors[0].msg);
-                return;
+                if (bad()) return;
             }
             VF_REQUIRE(r.live.empty(), "object_never_destroyed", "after all containers were destroyed " + std::to_string(r.live.size()) + " tracked objects are still alive");
         }
@@ -1700,7 +1718,7 @@ class Runner
             if (!l.errors.empty())
             {
                 fail(l.errors[0].code, l.errors[0].msg);
-                return;
+                if (bad()) return;
             }
             if (!l.live.empty())
             {
